@@ -76,7 +76,8 @@ class Gen:
             self.ops.append("proc reply %s connect 0 %s" % (h, outcome))
         return None
 
-    def txn(self, run):
+    def txn(self, run, shortlog=False):
+        """shortlog: the transaction's first log event is damaged (fewer than 4 bytes): the daemon must skip it and nothing else"""
         rng = self.rng
         parts = ["proc txn %s name=t%d pid=%d prio=%d" % (run, rng.randint(1, 2), rng.randint(1, 3), rng.randrange(1000000))]
         if rng.random() < 0.15:
@@ -97,6 +98,10 @@ class Gen:
             mx = rng.randint(1, 50)
             parts.append("sql=%d:%d:%d:%d:%d:%d" % (rng.randint(1, 4), rng.randint(1, 3), mx * 2, rng.randint(0, mx), mx, self.fresh()[0]))
         for key, p in (("ce", 0.4), ("se", 0.3), ("le", 0.3), ("ee", 0.3)):
+            if key == "le" and shortlog:
+                good = self.fresh(rng.randint(1, 3))
+                parts.append("le=%s" % ",".join(map(str, [rng.choice([0, 7, 42, 999])] + good)))
+                continue
             if rng.random() < p:
                 parts.append("%s=%s" % (key, ",".join(map(str, self.fresh(rng.randint(1, 3))))))
         if rng.random() < 0.2:
@@ -367,7 +372,8 @@ def malformed_history(rng):
             spec = g.ops.pop().split(" ", 3)[3]
             g.ops.append("proc mut %s seed=%d %s" % (tgt if tgt else "rX", rng.randrange(1, 2 ** 48), spec))
         elif k < 0.75:
-            g.txn(rng.choice(others))
+            # a damaged log event (shorter than 4 bytes) in an otherwise well-formed message for a healthy run
+            g.txn(rng.choice(others), shortlog=rng.random() < 0.35)
         elif k < 0.9:
             g.trigger(rng.choice(others))
         else:
@@ -376,5 +382,44 @@ def malformed_history(rng):
     g.ops.append("proc state")
     for r in others:
         g.drain(r, "200")
+    g.ops.append("proc cleanexit default=200")
+    return g.ops
+
+
+def capacity_history(rng):
+    """C05: small agent limits against larger (or absent) collector limits, and more events than fit offered in the FIRST
+    harvest period after the connect and in later ones"""
+    g = Gen(rng, napps=rng.choice([1, 2]), profile="allok", timeout=0)
+    for i in range(1, g.napps + 1):
+        h = "k%d" % i
+        g.ops.append("proc defapp %s lic=LIC%d name=app%d redirect=- lang=php ver=1.%d host=h%d dt=0 span=%d log=%d custom=%d" % (
+            h, i, i, i, i, rng.choice([0, 2, 5, 10000]), rng.choice([0, 1, 2, 3, 10000]), rng.choice([0, 2, 4, 30000])))
+        g.apps.append(h)
+    runs = []
+    for h in g.apps:
+        g.nrun += 1
+        run = "r%d%s" % (g.nrun, "qwzjkvbxyp"[g.nrun % 10] * 3)
+
+        def lim(mx):
+            return rng.choice(["-", "0", "1", "2", "5", "8", str(mx), str(mx + 7)])
+        g.ops.append("proc app %s run=-" % h)
+        g.ops.append("proc reply %s preconnect 0 200 host=coll-%s.example" % (h, h))
+        g.ops.append("proc reply %s connect 0 200 run=%s rp=%s ee=%s ae=%s ce=%s se=%s le=%s srp=%s sl=%s rules=- hdr=-" % (
+            h, run, rng.choice(["-", "60000", "30000", "5000"]), lim(100), lim(10000), lim(100000), lim(10000), lim(20000),
+            rng.choice(["-", "60000"]), lim(10000)))
+        g.run_of[h] = run
+        runs.append(run)
+    for period in range(rng.randint(1, 3)):
+        for _ in range(rng.randint(3, 8)):
+            run = rng.choice(runs)
+            n = rng.randint(2, 6)
+            parts = ["proc txn %s name=t1 pid=1 prio=%d" % (run, rng.randrange(1000000)), "ev=%d" % g.fresh()[0]]
+            for key in ("ce", "se", "le", "ee"):
+                parts.append("%s=%s" % (key, ",".join(map(str, g.fresh(n)))))
+            g.ops.append(" ".join(parts))
+        for run in runs:
+            g.trigger(run, mask=rng.choice([ALL, ALL, 16 | 32 | 64 | 128 | 256, 256, 32]))
+            g.drain(run, "200")
+    g.ops.append("proc state")
     g.ops.append("proc cleanexit default=200")
     return g.ops
